@@ -206,7 +206,19 @@ func collidingNames(r *verifrt.Rand, k int, length int) []string {
 func c04Program(r *verifrt.Rand, kind int) c04prog {
 	p := c04prog{}
 	np := 2 + r.Intn(3)
-	switch kind % 6 {
+	switch kind % 7 {
+	case 6:
+		// a hash chain whose every record needs a new page: a process that
+		// re-maps because of one of them meets the next one beyond its new
+		// mapping again
+		p.Name = "colliding-big"
+		p.PreFill = 3
+		l := 3800 + r.Intn(200)
+		p.Names = collidingNames(r, 4, l)
+		for i := 0; i < 3; i++ {
+			n := fmt.Sprintf("pfill/%d/", i)
+			p.Names = append(p.Names, n+strings.Repeat("g", l-len(n)))
+		}
 	case 0:
 		p.Name = "same-name"
 		p.Names = []string{"shared/counter"}
@@ -267,6 +279,7 @@ func runC04(res *verifrt.Result, base string, p c04prog, st c03strategy, rnd *ve
 	now := time.Date(2024, 3, 4, 10, 0, 0, 0, time.UTC)
 	CounterTime = func() time.Time { return now }
 	munmap = func(d *mmap.Data) error { return e.q.Unmap(d.Data, "unmap") }
+	trapExit()
 	for range p.Procs {
 		e.procs = append(e.procs, &c04proc{f: &file{}, ctrs: map[int]*Counter{}, begun: map[int]uint64{}, done: map[int]uint64{}})
 	}
@@ -465,14 +478,14 @@ func TestVerifC04(t *testing.T) {
 			rnd := verifrt.NewRand(verifrt.Seed(), fmt.Sprintf("%s/%d", check, i))
 			p := c04Program(rnd, i)
 			var st c03strategy
-			switch (i / 6) % 4 {
+			switch (i / 7) % 4 {
 			case 0: // kill one process at its k-th point, k systematic
-				k := 1 + (i/24)%90
+				k := 1 + (i/28)%90
 				v := rnd.Intn(len(p.Procs))
 				p.KillAt[v] = k
 				st = c03strategy{Kind: "park", Phases: []verifrt.Phase{{Thread: rnd.Intn(len(p.Procs)), Until: 1 + rnd.Intn(60)}}}
 			case 1: // park one process at its k-th point, run the others to completion
-				k := 1 + (i/24)%90
+				k := 1 + (i/28)%90
 				v := rnd.Intn(len(p.Procs))
 				st = c03strategy{Kind: "park", Phases: []verifrt.Phase{{Thread: v, Until: k}}}
 				for _, o := range rnd.Perm(len(p.Procs)) {
@@ -495,6 +508,19 @@ func TestVerifC04(t *testing.T) {
 						p.KillAt[j] = 1 + rnd.Intn(80)
 					}
 				}
+			}
+			if p.Name == "colliding-big" && (i/7)%2 == 1 {
+				// one process links a record beyond everybody's mapping; the
+				// victim starts, is parked at its k-th point (for all k: also
+				// right after its re-map); a third process links another record
+				// one page further in the same bucket; the victim resumes
+				kind := verifrt.Pick(rnd, []string{"raw", "add"})
+				// (pages hold four such records: three fillers make the next one cross)
+				p.Procs = [][]c04op{{{Kind: kind, Name: 0, N: 1}}, {{Kind: "add", Name: 2, N: 1}},
+					{{Kind: "raw", Name: 4, N: 1}, {Kind: "raw", Name: 5, N: 1}, {Kind: "raw", Name: 6, N: 1}, {Kind: "raw", Name: 1, N: 1}}}
+				p.KillAt = make([]int, 3)
+				st = c03strategy{Kind: "park", Phases: []verifrt.Phase{{Thread: 0, Until: -1}, {Thread: 1, Until: 1 + (i/14)%60}, {Thread: 2, Until: -1}, {Thread: 1, Until: -1}}}
+				r.Hit("remap-twice-pattern")
 			}
 			if cur != nil {
 				cur.Set(fmt.Sprintf("case %d program %s strategy %+v kill %v", i, p.Name, st, p.KillAt))
@@ -529,7 +555,11 @@ func TestVerifC04(t *testing.T) {
 				for _, t := range s.Threads {
 					if t.Panic != nil && !t.Killed {
 						sig := "panic:" + topFrame(t.Stack)
-						if addr, ok := verifrt.FaultAddr(t.Panic); ok {
+						if ep, ok := t.Panic.(verifrt.ExitPanic); ok {
+							// the file is healthy by construction (only crashes and
+							// other processes' progress): nothing may be judged corrupt
+							sig = fmt.Sprintf("survivor-exit-%d:counter-bug-on-healthy-file:%s", ep.Code, exitFrame(t.Stack))
+						} else if addr, ok := verifrt.FaultAddr(t.Panic); ok {
 							if _, ok := e.q.Find(addr); ok {
 								sig = "stale-mapping-access:" + topFrame(t.Stack)
 							} else {
@@ -576,7 +606,7 @@ func TestVerifC04(t *testing.T) {
 			e.close()
 		}
 	})
-	res.Require("program:same-name", "program:colliding-names", "program:extend-race", "program:page-tail", "program:concurrent-create", "schedule-with-kill", "strategy:pct", "strategy:park")
+	res.Require("remap-twice-pattern", "program:colliding-big", "program:same-name", "program:colliding-names", "program:extend-race", "program:page-tail", "program:concurrent-create", "schedule-with-kill", "strategy:pct", "strategy:park")
 	if err := res.Write(); err != nil {
 		t.Fatal(err)
 	}
